@@ -497,6 +497,17 @@ func c37Seeds() []*c37Seed {
 		}
 		c37Must(w.Close())
 		data := append([]byte(nil), buf.Bytes()...)
+		// OggWriter draws a random serial number: pin it (and re-checksum) so that the seed is the same on every run
+		for off := 0; len(data)-off >= 27; {
+			binary.LittleEndian.PutUint32(data[off+14:], 0x11223344)
+			nseg := int(data[off+26])
+			size := 0
+			for _, l := range data[off+27 : off+27+nseg] {
+				size += int(l)
+			}
+			off += 27 + nseg + size
+		}
+		c37FixCRC(data)
 		seeds = append(seeds, &c37Seed{name: "ogg-single-3packets", kind: "ogg", data: data, fields: c37OggFields(data), words: c37OggWords(data)})
 	}
 	// Ogg B: two tracks, family-255 mapping, user comments, nil EOS pages
@@ -914,6 +925,13 @@ func (e *c37Env) runAll() {
 				}
 				cs, j := e.caseAt(id - 1)
 				tg := e.targets[j.target].name
+				if e.poisoned[j.target].Load() {
+					// a hang of this reader is already confirmed and reported; give this worker up as well
+					dead[w] = true
+					live--
+
+					continue
+				}
 				fmt.Printf("C37: worker %d has been in case %s for more than %v; re-running it alone\n", w, vkit.Short(cs), guard)
 				soloDone := make(chan struct{})
 				go func() {
